@@ -28,6 +28,12 @@ CLAIMED = {
     "C14": ("bounded symbolic model checking with the fault position as a symbolic variable: the reader fails after k rows / the writer refuses write j (k, j solver-chosen) on every forest up to the bound and every sequential output mode of both API families; z3 decides that the reader's error is returned (errors.Is) and that nil is returned only if the writer accepted the complete output",
             "trusted: bufio.Scanner/bufio.Writer contracts, encoder stubs perform one Write per Encode (the real yaml/toml encoders may split writes; covered only by native replays); short writes with nil error not modelled; massive mode under C11",
             "DESIGN.md 5 C14"),
+    "C12": ("bounded symbolic model checking at byte level: every document of 1-2 rows of a few arbitrary bytes is run through the real parser and every sequential entry point; an interpreted panic or an exceeded step budget on any feasible path is a violation, and z3 decides that blank-only input gives empty output and nil; panic-freedom is also built into every harness of every other property",
+            "bound on row count/length is small (byte-level path explosion); over-long lines and massive mode are outside this check (C14, C10/C11); file system is the harness model",
+            "DESIGN.md 5 C12"),
+    "C15": ("bounded symbolic model checking of the notation family in two layers: the L-parse lemmas run the real Parser.Parse from every state an accepted prefix can leave, on rows whose name bytes are symbolic, and z3 decides that every spelling of a row yields the same (depth, text) resp. the right error class; an end-to-end harness (real parser + real tree code, no stub) compares the canonical spelling with every member of the notation family on small forests",
+            "CRLF / final newline are bufio.Scanner's contract (trusted); heading names assumed free of surrounding blanks; name length <= 3 bytes in the lemmas; outputs other than text rely on C01-C05 (same generator)",
+            "DESIGN.md 5 C15, 4.2"),
 }
 
 NOT_YET = "check under construction in this session (engine built first; see DESIGN.md 5)"
